@@ -135,12 +135,12 @@ Qed.
 Theorem link_eexist f e p q : plainp q = true -> q <> [] -> snd (sem f e (CLink p q)) = RErr EEXIST -> name_of f q <> None.
 Proof.
   intros Hq Hne. cbn [sem]. destruct (resolve f p) as [cp|er] eqn:Rp.
-  2:{ cbn [snd]. intros H. injection H as ->. unfold resolve in Rp. destruct (has_abs p); [discriminate|]. destruct (flatten p) as [comps|]; [|discriminate].
+  2:{ cbn [snd]. intros H. injection H as ->. unfold resolve in Rp. destruct (has_abs p); [discriminate|]. destruct (path_max_exceeded p); [discriminate|]. destruct (flatten p) as [comps|]; [|discriminate].
       exfalso. revert Rp. generalize (@nil string). induction comps as [|c comps IH]; intros cur; cbn [walk]; [discriminate|].
       destruct (is_dir_at f cur) as [[|]|]; try discriminate. destruct (too_long c); [discriminate|].
       destruct (_ || _)%bool; [apply IH|]. destruct (String.eqb c ".."); apply IH. }
   destruct (resolve f q) as [cq|er] eqn:Rq.
-  2:{ cbn [snd]. intros H. injection H as ->. exfalso. unfold resolve in Rq. destruct (has_abs q); [discriminate|]. destruct (flatten q) as [comps|]; [|discriminate].
+  2:{ cbn [snd]. intros H. injection H as ->. exfalso. unfold resolve in Rq. destruct (has_abs q); [discriminate|]. destruct (path_max_exceeded q); [discriminate|]. destruct (flatten q) as [comps|]; [|discriminate].
       revert Rq. generalize (@nil string). induction comps as [|c comps IH]; intros cur; cbn [walk]; [discriminate|].
       destruct (is_dir_at f cur) as [[|]|]; try discriminate. destruct (too_long c); [discriminate|].
       destruct (_ || _)%bool; [apply IH|]. destruct (String.eqb c ".."); apply IH. }
